@@ -296,9 +296,32 @@ def rule_r3(ctx) -> RuleResult:
                        "the matching regex and the table disagree: {}".format(sorted(got ^ set(mp))), 0))
     # nowiki_quote substitutes through the table
     nq = ctx.fn("common.nowiki_quote")
-    src = unparse(nq)
-    if "_nowiki_map[m.group(0)]" in src and "re.sub(_nowiki_re" in src:
-        rr.ok("common.nowiki_quote", "re.sub(_nowiki_re, m -> _nowiki_map[m.group(0)], text)")
+    cm = ctx.index.mod("common")
+    subs = []
+    for c in ast.walk(nq):
+        if isinstance(c, ast.Call) and unparse(c.func) == "re.sub" and len(c.args) >= 3 and unparse(c.args[0]) == "_nowiki_re":
+            subs.append(c.args[1])
+        elif isinstance(c, ast.Call) and isinstance(c.func, ast.Attribute) and c.func.attr == "sub" and unparse(c.func.value) == "_nowiki_re" and c.args:
+            subs.append(c.args[0])
+    if not subs:
+        raise AnalysisError("nowiki_quote: the substitution with _nowiki_re was not recognised")
+
+    def maps_through_table(repl) -> bool:
+        target = None
+        if isinstance(repl, ast.Lambda):
+            target = repl
+        elif isinstance(repl, ast.Name):
+            target = next((n for n in ast.walk(nq) if isinstance(n, ast.FunctionDef) and n.name == repl.id), None) \
+                or next((f_ for f_ in cm.funcs.values() if f_.name == repl.id), None)   # (a moved function is indexed under its pinned name)
+        if target is None:
+            return False
+        outs = [target.body] if isinstance(target, ast.Lambda) else [r.value for r in ast.walk(target) if isinstance(r, ast.Return) and r.value is not None]
+        return bool(outs) and all(isinstance(o, ast.Subscript) and unparse(o.value) == "_nowiki_map" and isinstance(o.slice, ast.Call)
+                                  and isinstance(o.slice.func, ast.Attribute) and o.slice.func.attr == "group"
+                                  and [unparse(a) for a in o.slice.args] in (["0"], []) for o in outs)
+
+    if all(maps_through_table(r) for r in subs):
+        rr.ok("common.nowiki_quote", "_nowiki_re substitution maps every match through _nowiki_map[m.group(0)]")
     else:
         rr.bad(Finding("C15.R3", COMMON, "common.nowiki_quote", "body", "nowiki_quote no longer substitutes through _nowiki_map/_nowiki_re", nq.lineno))
     return rr
